@@ -18,7 +18,8 @@ RULE = ("Hypothesis draws an environment (scalar/vector/matrix variables, parame
         "and compared with an independent NumPy-float interpreter of the same recipe.  Non-trivial = "
         ">= 3 operator nodes, value depends on a variable, and V is not the expression's own variables "
         "in natural order; distinct by SHA-1 of the canonical case."
-        '  Also: the same expression object is compiled a second time against another variable list (extra variables inserted / permuted) and judged again.')
+        '  Also: the same expression object is compiled a second time against another variable list (extra variables inserted / permuted) and judged again.'
+        " Also (round 6): vectors of 64-100 elements (c @ x, dot, quadratic form, norms, power / function sums; whole / reversed / copied views) against natural / reversed / rotated / interleaved / permuted variable lists; an earlier model whose slice views or Parameters are name-equal to the judged one's; nearly diagonal matrices with off-diagonal entries <= 1e-8; points with coordinates exactly zero.")
 BUDGET = {"quick": {"workers": 16, "examples": 700}, "thorough": {"workers": 16, "examples": 10000}}
 ASSUMPTIONS = ["NumPy ufuncs are the definition of the 18 elementary functions",
                "points with a non-finite or > 1e6 intermediate are outside the judged domain"]
